@@ -13,6 +13,7 @@ import argparse, hashlib, json, os, random, re, shutil, subprocess, sys, time
 from concurrent.futures import ThreadPoolExecutor
 
 REPO = "/repo"
+VERIF = "/verif"
 FILES = {
     "src/detail/free_list.cpp": ["C04", "C01", "C12"],
     "src/detail/small_free_list.cpp": ["C04", "C01", "C16", "C12"],
@@ -120,7 +121,7 @@ def run_mutant(lane, m, out):
         res["status"] = "survived"
         res["checks"] = {}
         for c in m["checks"]:
-            r = sh("VERIF_REPO=%s VERIF_OUT=%s timeout 1500 /verif/bin/vcheck run %s 2>&1" % (scratch, alt, c), timeout=1600)
+            r = sh("VERIF_REPO=%s VERIF_OUT=%s timeout 1500 %s/bin/vcheck run %s 2>&1" % (scratch, alt, VERIF, c), timeout=1600)
             guards = sorted(set(re.findall(r"guard false: (\S+)", r.stdout)))
             res["checks"][c] = {"rc": r.returncode, "guards": guards[:6]}
             if r.returncode == 1:
@@ -151,8 +152,12 @@ def main():
     ap.add_argument("--lanes", type=int, default=4)
     ap.add_argument("--out", default="/verif/work/mutcamp")
     ap.add_argument("--files", default="")
+    ap.add_argument("--verif", default="/verif", help="tree whose bin/vcheck is used (a snapshot keeps a long campaign independent of edits)")
+    ap.add_argument("--skip-done", default="", help="results.jsonl whose mutant ids are not run again")
     ap.add_argument("--rerun", default="", help="results.jsonl of an earlier campaign: run its survivors / infra again with the current checks")
     a = ap.parse_args()
+    global VERIF
+    VERIF = a.verif
     os.makedirs(a.out, exist_ok=True)
     rng = random.Random(a.seed)
     todo = []
@@ -178,6 +183,9 @@ def main():
         for (i, op, before, after) in c[:a.per_file]:
             todo.append({"id": "%s:%d:%s" % (os.path.basename(f), i + 1, op), "file": f, "line": i, "op": op,
                          "before": before, "after": after, "checks": FILES[f]})
+    if a.skip_done and os.path.exists(a.skip_done):
+        done = {json.loads(l)["id"] for l in open(a.skip_done) if json.loads(l)["status"] not in ("infra", "timeout")}
+        todo = [m for m in todo if m["id"] not in done]
     print("mutants:", len(todo), "files:", len(files), flush=True)
     lanes = list(range(a.lanes))
     import queue
